@@ -1,6 +1,108 @@
-import RucteModel
+import RucteModel.Diag
+import RucteProofs.NomSound
+import RucteProofs.ParserSound
+import RucteProofs.DiagSound
 
-/-! # C11 — placeholder: theorems are added as they are proved. -/
+/-!
+# C11 — the template parser is total and its diagnostics are well-formed
+
+`template n inp` is the transcription of the nom parser with fuel `n` (nesting depth of named
+recursive calls); `Res.panic` is the outcome of nom's byte-input `Satisfy` (`none_of` / `one_of`)
+running off the end of the input — after the repairs only `one_of("'\"\\nrt0xu")` (an ASCII set)
+is left, which cannot panic.  `showErrors` is `show_errors`; `diagInfo` the numbers it prints.
+-/
 namespace Ructe.C11
-theorem placeholder : True := trivial
+open Nom
+
+/-- **no panic**: for every byte sequence and every fuel the parser does not panic -/
+theorem template_no_panic (n : Nat) (inp : Bytes) : template n inp ≠ .panic :=
+  (good_template n).np inp
+
+/-- every (visible) error entry lies inside the input -/
+theorem template_err_in_range (n : Nat) (inp : Bytes) (es : Errs) (h : template n inp = .err es) :
+    ∀ e ∈ es, e.rem ≤ inp.length :=
+  (good_template n).ei inp es h
+
+/-- acceptance means the **whole** input was consumed (`end_of_file`) -/
+theorem template_accepts_whole (n : Nat) (inp rest : Bytes) (t : Template) (h : template n inp = .ok rest t) :
+    rest = [] :=
+  endsEmpty_template n inp rest t h
+
+/-- **well-formed diagnostics**: for an error position inside the input, the line number is
+between 1 and the number of lines, the line start is at or before the position and directly
+after a newline (or 0), the caret column is at least 1 and at most one more than the number of
+bytes before the position on that line, and the echoed line is exactly the source line containing
+the position — or the placeholder (`none`) iff that line is not valid UTF-8 -/
+theorem diag_in_range (buf : Bytes) (pos : Nat) (hp : pos ≤ buf.length) :
+    let d := diagInfo buf pos
+    1 ≤ d.lineNo ∧ d.lineNo ≤ 1 + (buf.filter (· = 10)).length ∧
+    d.lineStart ≤ pos ∧
+    (d.lineStart = 0 ∨ buf[d.lineStart - 1]? = some 10) ∧
+    (∀ i, d.lineStart ≤ i → i < pos → buf[i]? ≠ some 10) ∧
+    1 ≤ d.col ∧ d.col ≤ 1 + (pos - d.lineStart) ∧
+    (match d.line with
+     | some l => l = (buf.drop d.lineStart).takeWhile (· ≠ 10) ∧ validUtf8 l = true
+     | none => validUtf8 ((buf.drop d.lineStart).takeWhile (· ≠ 10)) = false) := by
+  obtain ⟨A, B, hAB, hA, hB, hlast⟩ := lineStart_split (buf.take pos)
+  have hbuf : buf = A ++ B ++ buf.drop pos := by rw [← hAB, List.take_append_drop]
+  have hlen : A.length + B.length = pos := by
+    have := congrArg List.length hAB
+    simp only [List.length_take, List.length_append] at this
+    omega
+  intro d
+  have hLS : d.lineStart = A.length := hA.symm
+  refine ⟨?_, ?_, ?_, ?_, ?_, ?_, ?_, ?_⟩
+  · show 1 ≤ ((buf.take (lineStartOf (buf.take pos))).filter (· = 10)).length + 1
+    omega
+  · show ((buf.take (lineStartOf (buf.take pos))).filter (· = 10)).length + 1 ≤ _
+    have := ((List.take_sublist (lineStartOf (buf.take pos)) buf).filter (· = 10)).length_le
+    omega
+  · omega
+  · rw [hLS]
+    rcases hlast with h | h
+    · left; simp [h]
+    · right
+      have hne : A ≠ [] := by intro h0; simp [h0] at h
+      have hpos : 0 < A.length := List.length_pos_iff.mpr hne
+      rw [hbuf, List.append_assoc, List.getElem?_append_left (by omega), ← List.getLast?_eq_getElem?]
+      exact h
+  · intro i h1 h2 h3
+    rw [hLS] at h1
+    rw [hbuf, List.getElem?_append_left (by simp only [List.length_append]; omega),
+      List.getElem?_append_right h1] at h3
+    exact hB 10 (List.mem_iff_getElem?.mpr ⟨_, h3⟩) rfl
+  · show 1 ≤ lossyCount _ _ + 1
+    omega
+  · rw [hLS]
+    show lossyCount (((buf.drop (lineStartOf (buf.take pos))).take (pos - lineStartOf (buf.take pos))).length + 1)
+        ((buf.drop (lineStartOf (buf.take pos))).take (pos - lineStartOf (buf.take pos))) + 1 ≤ _
+    have h1 := lossyCount_le (((buf.drop (lineStartOf (buf.take pos))).take (pos - lineStartOf (buf.take pos))).length + 1)
+        ((buf.drop (lineStartOf (buf.take pos))).take (pos - lineStartOf (buf.take pos)))
+    have h2 : ((buf.drop (lineStartOf (buf.take pos))).take (pos - lineStartOf (buf.take pos))).length
+        ≤ pos - lineStartOf (buf.take pos) := List.length_take_le _ _
+    omega
+  · show (match (if validUtf8 ((buf.drop (lineStartOf (buf.take pos))).takeWhile (· ≠ 10)) then
+        some ((buf.drop (lineStartOf (buf.take pos))).takeWhile (· ≠ 10)) else none) with
+      | some l => l = (buf.drop (lineStartOf (buf.take pos))).takeWhile (· ≠ 10) ∧ validUtf8 l = true
+      | none => validUtf8 ((buf.drop (lineStartOf (buf.take pos))).takeWhile (· ≠ 10)) = false)
+    generalize (buf.drop (lineStartOf (buf.take pos))).takeWhile (· ≠ 10) = lb
+    cases hv : validUtf8 lb <;> simp [hv]
+
+set_option linter.unusedVariables false in
+/-- the diagnostics of a rejection are positions inside the input (so `diag_in_range` applies to each) -/
+theorem rejection_positions_in_range (n : Nat) (inp : Bytes) (es : Errs) (h : template n inp = .err es) :
+    ∀ e ∈ es, inp.length - e.rem ≤ inp.length := by
+  intro e _; omega
+
+/-- the pinned `show_error` computed the column with `from_utf8(prefix).unwrap()`: it panics for
+`@()\n@* \xFF *@ @if { x }` at the position of the `{` (finding #4, machine-checked) -/
+theorem showErrors_pinned_panics_witness :
+    showErrorPinnedPanics [64, 40, 41, 10, 64, 42, 32, 255, 32, 42, 64, 32, 64, 105, 102, 32, 123, 32, 120, 32, 125] 16 = true := by
+  decide +kernel
+
+/-- nom's byte-input `none_of` panics on a byte ≥ 0x80 that is the last byte of the input — what the
+pinned `comment_tail` ran into on `@* *\xC3` (finding #9, machine-checked) -/
+theorem noneOf_panics_witness : noneOf [64] [195] = .panic ∧ noneOf [64] [195, 169] = .ok [] 195 := by
+  constructor <;> simp [noneOf, satisfyAdvance]
+
 end Ructe.C11
